@@ -94,6 +94,14 @@ func rawList(c *ev.Case, o *rawOpts, depth int, classes *[]string) []byte {
 		}
 		cls := ""
 		switch x := r.IntN(12); {
+		case depth == 0 && r.IntN(40) == 0: // a payload above 64 KiB (lengths that need all 24 bits)
+			k := stringKinds[r.IntN(len(stringKinds))]
+			if !pick(k) {
+				continue
+			}
+			l := []int{65527, 65528, 65529, 65556, 70001, 131072, 196608}[r.IntN(7)]
+			payload = fillerImage(c, l)
+			cls = fmt.Sprintf("%s/big=%d", k, l)
 		case x < 4: // fixed-width type with a payload of every length 0..20
 			k := fixedKinds[r.IntN(len(fixedKinds))]
 			if !pick(k) {
